@@ -97,6 +97,7 @@ let functions : (string * (val0 -> val0)) list = [
   ("oracle", oracle_run);
   ("conn", conn_run);
   ("cmd", cmd_run);
+  ("evm", evm_run);
 ]
 
 (* monitors: (property, suite) -> case -> implementation output -> list of violations *)
@@ -111,6 +112,8 @@ let monitors : ((string * string) * (val0 -> val0 -> val0)) list = [
   (("C03", "votes"), mon_C03);
   (("C09", "sigset"), mon_C09);
   (("C07", "ckpt"), mon_C07_ckpt);
+  (("C08", "evm"), mon_C08);
+  (("C08", "sigset"), mon_C08_sigset);
   (("C07", "sig"), mon_C07_sig);
   (("C14", "claim"), mon_C14);
   (("C16", "reg"), mon_C16);
